@@ -82,12 +82,20 @@ func VF_C03_List() {
 		before := append([]interface{}{}, ref...)
 		size := len(ref)
 		pos := vf.Choice("pos", size+3) - 1 // -1 .. size+1
-		call := vf.Choice("call", 7)
+		call := vf.Choice("call", 8)
 		vf.Tag("call", call)
 		var err error
 		valid := false
 		panicked, msg := vf.Try(func() {
 			switch call {
+			case 7: // Update of a range (crosses the tombstone of the pre-state)
+				old, e := l.Update(pos, "u", "w")
+				err = toErr(e)
+				valid = pos >= 0 && pos+2 <= size
+				if valid {
+					vf.Assert(sliceEq(old, ref[pos:pos+2]), "C03 Update of a range returns the old values")
+					ref[pos], ref[pos+1] = "u", "w"
+				}
 			case 0: // Insert
 				var ret interface{}
 				ret, e := l.Insert(pos, "n")
@@ -157,7 +165,7 @@ func VF_C03_List() {
 		vf.Assert(sliceEq(l.snapshot().ToJSON().([]interface{}), ref), "C03 JSON view matches the reference")
 		// pending operations and identifiers
 		n1, seq1 := pendingOps(l)
-		mutating := valid && (call == 0 || call == 3 || call == 4 || call == 5)
+		mutating := valid && (call == 0 || call == 3 || call == 4 || call == 5 || call == 7)
 		if mutating {
 			vf.Assert(n1 == n0+1 && seq1 == seq0+1, "C03/C15 exactly one operation with the next sequence number is queued")
 		} else {
